@@ -49,6 +49,27 @@ for d in sorted(glob.glob(f'{ROOT}/mutations/C*')):
     out.append(f"| {p} | {n} | {det if det is not None else 'see NOTES.md'} | {', '.join(names_missed) if names_missed else ('—' if det is not None else 'see NOTES.md')} |")
 out.append('')
 out.append('### 9.5 Independently seeded changes (fresh sub-agents that saw only the property text; /verif/seeded/<id>/)\n')
+_r3=set(open(f'{ROOT}/seeded/ROUND3.txt').read().split()) if os.path.exists(f'{ROOT}/seeded/ROUND3.txt') else set()
+def _round(name):
+    if name in _r3: return 3
+    return 1 if int(name.split('-')[1])<=3 else 2
+_res={}
+if os.path.exists(f'{ROOT}/seeded/RESULTS.txt'):
+    for l in open(f'{ROOT}/seeded/RESULTS.txt'):
+        m=re.match(r'(\S+) check=(\S+) rc=(\d+) (\S+)',l)
+        if m: _res.setdefault(m.group(1),[]).append(m.group(4))
+_stat={}
+for d in sorted(glob.glob(f'{ROOT}/seeded/C*-*')):
+    n=os.path.basename(d); r=_round(n); st=_res.get(n,[])
+    k='not run' if not st else ('first' if st[0].startswith('DETECTED') else ('follow-up' if st[-1].startswith('DETECTED') else 'missed'))
+    _stat.setdefault(r,{}).setdefault(k,[]).append(n)
+out.append('Summary (a change counts as *first run* when the quick tier as it stood when the change arrived was red, as *after follow-up* when the generator or oracle of the check had to be extended first — every such extension is described in the check\'s NOTES.md and kept as a mutation —, as *missed* when the quick tier is still green with the change applied):\n')
+out.append('| round | changes | detected at first run | detected after follow-up | still missed |')
+out.append('|---|---|---|---|---|')
+for r in sorted(_stat):
+    g=_stat[r]; tot=sum(len(v) for v in g.values())
+    out.append(f"| {r} | {tot} | {len(g.get('first',[]))} | {len(g.get('follow-up',[]))} | {', '.join(g.get('missed',[])+g.get('not run',[])) or '—'} |")
+out.append('')
 out.append('| change | property | what it breaks / what it needs | confirmed (demo fails with, passes without; suites pass) | caught by | signatures |')
 out.append('|---|---|---|---|---|---|')
 res={}
